@@ -374,4 +374,298 @@ theorem validateContexts_refines (cs : List Bytes) :
           | true => exact absurd ⟨hn, ha⟩ hnot
     · simp [h0]
 
+
+/-! ## verification relationships -/
+
+theorem hasDedicated_refines (r : didtypes.VerificationRelationship) :
+    didtypes.VerificationRelationship.hasDedicatedMethod r =
+      P.ok (match toRel r with | .dedicated _ => true | .ref _ => false) := by
+  unfold didtypes.VerificationRelationship.hasDedicatedMethod toRel
+  obtain ⟨c⟩ := r
+  cases c with
+  | none => rfl
+  | VerificationMethodId v => rfl
+  | VerificationMethod v => cases v <;> rfl
+
+theorem relValid_refines (r : didtypes.VerificationRelationship) (did : Bytes) :
+    didtypes.VerificationRelationship.Valid r did = P.ok ((toRel r).valid did) := by
+  unfold didtypes.VerificationRelationship.Valid
+  simp only [hasDedicated_refines, P.ok_bind, bind_pure_comp]
+  unfold toRel Did.Rel.valid
+  obtain ⟨c⟩ := r
+  cases c with
+  | none => simp [validateVMID_refines]; rfl
+  | VerificationMethodId v => simp [validateVMID_refines]
+  | VerificationMethod v =>
+    cases v with
+    | none => simp [validateVMID_refines]; rfl
+    | some vm => simp [Go.deref, vmValid_refines]
+
+/-- the identifier a non-dedicated relationship refers to -/
+def refId (r : didtypes.VerificationRelationship) : Bytes :=
+  match r.Content with | .VerificationMethodId v => v | _ => default
+
+theorem vmByID_refines (d : didtypes.DIDDocument) (id : Bytes) (hn : ∀ x ∈ d.VerificationMethods, x.isSome = true) :
+    didtypes.DIDDocument.VerificationMethodByID d id =
+      P.ok (match (d.VerificationMethods.filterMap _root_.id).find? (fun vm => vm.Id = id) with
+        | some vm => (vm, true)
+        | none => (default, false)) := by
+  unfold didtypes.DIDDocument.VerificationMethodByID
+  rw [forIn_find d.VerificationMethods (fun x => match x with
+    | some vm => if vm.Id = id then some (vm, true) else none
+    | none => none)]
+  · simp only [P.ok_bind]
+    have : ∀ l : List (Option didtypes.VerificationMethod), (∀ x ∈ l, x.isSome = true) →
+        l.findSome? (fun x => match x with
+          | some vm => if vm.Id = id then some (vm, true) else none
+          | none => none) =
+        ((l.filterMap _root_.id).find? (fun vm => vm.Id = id)).map (fun vm => (vm, true)) := by
+      intro l
+      induction l with
+      | nil => intro _; rfl
+      | cons x l ih =>
+        intro hl
+        cases x with
+        | none => have := hl none (by simp); cases this
+        | some vm =>
+          simp only [List.findSome?_cons, List.filterMap_cons, _root_.id, List.find?_cons]
+          by_cases hv : vm.Id = id
+          · simp [hv]
+          · simp only [hv, if_false, decide_false]
+            exact ih (fun y hy => hl y (List.mem_cons_of_mem _ hy))
+    rw [this _ hn]
+    cases (d.VerificationMethods.filterMap _root_.id).find? (fun vm => vm.Id = id) <;> rfl
+  · intro x hx
+    cases x with
+    | none => have := hn none hx; cases this
+    | some vm =>
+      simp only [Go.deref, P.ok_bind]
+      by_cases hv : vm.Id = id
+      · simp [hv]
+      · simp [hv]
+
+theorem find_toVM (l : List didtypes.VerificationMethod) (id : Bytes) :
+    ((l.find? (fun vm => vm.Id = id)).map toVM) = Did.vmByID (l.map toVM) id := by
+  unfold Did.vmByID
+  induction l with
+  | nil => rfl
+  | cons x l ih =>
+    simp only [List.find?_cons, List.map_cons]
+    have : (toVM x).id = x.Id := rfl
+    rw [this]
+    by_cases h : x.Id = id
+    · simp [h]
+    · simp only [h, decide_false]; exact ih
+
+theorem validRels_refines (d : didtypes.DIDDocument) (rs : List didtypes.VerificationRelationship)
+    (hn : ∀ x ∈ d.VerificationMethods, x.isSome = true) :
+    didtypes.DIDDocument.validVerificationRelationships d rs = P.ok (Did.validRels (toDoc d) (rs.map toRel)) := by
+  unfold didtypes.DIDDocument.validVerificationRelationships Did.validRels
+  simp only [List.all_map]
+  rw [forIn_all rs (fun r => ((fun r => r.valid (toDoc d).id && (match r with
+      | .dedicated _ => true
+      | .ref id => (Did.vmByID (toDoc d).vms id).isSome)) ∘ toRel) r)]
+  · cases rs.all _ <;> rfl
+  · intro r _
+    simp only [relValid_refines, hasDedicated_refines, P.ok_bind, Function.comp]
+    have hid : (toDoc d).id = d.Id := rfl
+    rw [hid]
+    have hvms : (toDoc d).vms = (d.VerificationMethods.filterMap _root_.id).map toVM := rfl
+    -- the lookup of a referenced id, in model terms
+    have hlook : ∀ rid : Bytes, didtypes.DIDDocument.VerificationMethodByID d rid =
+        P.ok (match (d.VerificationMethods.filterMap _root_.id).find? (fun vm => vm.Id = rid) with
+          | some vm => (vm, true)
+          | none => (default, false)) := fun rid => vmByID_refines d rid hn
+    have step : ∀ rid : Bytes,
+        (do let t_2 ← didtypes.DIDDocument.VerificationMethodByID d rid
+            if (!t_2.snd) = true then (pure (ForInStep.done (some false, ())) : P (ForInStep (Option Bool × Unit)))
+              else pure (ForInStep.yield (none, ()))) =
+        P.ok (if (Did.vmByID (toDoc d).vms rid).isSome = true then ForInStep.yield (none, ())
+          else ForInStep.done (some false, ())) := by
+      intro rid
+      rw [hlook rid, hvms, ← find_toVM]
+      cases (d.VerificationMethods.filterMap _root_.id).find? (fun (vm : didtypes.VerificationMethod) => vm.Id = rid) <;> rfl
+    have fin : ∀ (rid : Bytes) (b : Bool),
+        (if (!b) = true then (pure (ForInStep.done (some false, ())) : P (ForInStep (Option Bool × Unit)))
+          else do
+            let t_2 ← didtypes.DIDDocument.VerificationMethodByID d rid
+            if (!t_2.snd) = true then pure (ForInStep.done (some false, ())) else pure (ForInStep.yield (none, ()))) =
+        P.ok (if (b && (Did.vmByID (toDoc d).vms rid).isSome) = true then ForInStep.yield (none, ())
+          else ForInStep.done (some false, ())) := by
+      intro rid b
+      cases b with
+      | false => rfl
+      | true =>
+        simp only [Bool.not_true, Bool.false_eq_true, if_false, Bool.true_and]
+        exact step rid
+    obtain ⟨c⟩ := r
+    cases c with
+    | none =>
+      simp only [toRel, Bool.not_false, if_true]
+      exact fin _ _
+    | VerificationMethodId v =>
+      simp only [toRel, Bool.not_false, if_true]
+      exact fin _ _
+    | VerificationMethod v =>
+      cases v with
+      | none =>
+        simp only [toRel, Bool.not_false, if_true]
+        exact fin _ _
+      | some vm =>
+        simp only [toRel, Bool.not_true, Bool.false_eq_true, if_false, Bool.and_true]
+        cases (Did.Rel.dedicated (toVM vm)).valid d.Id <;> rfl
+
+
+/-! ## the document -/
+
+theorem serviceValid_refines (x : didtypes.Service) :
+    didtypes.Service.Valid x = P.ok (decide ((toService x).id ≠ []) && decide ((toService x).type ≠ []) &&
+      decide ((toService x).endpoint ≠ [])) := rfl
+
+/-- a predicate on the element a pointer points to; a nil pointer does not satisfy it -/
+def optP {α : Type} (p : α → Bool) : Option α → Bool
+  | some a => p a
+  | none => false
+
+theorem all_filterMap_some {α : Type} (l : List (Option α)) (p : α → Bool) (hn : ∀ x ∈ l, x.isSome = true) :
+    l.all (optP p) = (l.filterMap id).all p := by
+  induction l with
+  | nil => rfl
+  | cons x l ih =>
+    cases x with
+    | none => have := hn none (by simp); cases this
+    | some a =>
+      simp only [List.all_cons, List.filterMap_cons, id, optP]
+      rw [ih (fun y hy => hn y (List.mem_cons_of_mem _ hy))]
+
+theorem isEmpty_filterMap_some {α : Type} (l : List (Option α)) (hn : ∀ x ∈ l, x.isSome = true) :
+    (l.filterMap id).isEmpty = l.isEmpty := by
+  cases l with
+  | nil => rfl
+  | cons x l =>
+    cases x with
+    | none => have := hn none (by simp); cases this
+    | some a => rfl
+
+theorem deref_some {α : Type} (site : String) (a : α) : Go.deref site (some a) = P.ok a := rfl
+
+/-- split on a Boolean without generalising it (it occurs inside `Decidable` instances) -/
+macro "bsplit " e:term : tactic => `(tactic|
+  (rcases Bool.eq_false_or_eq_true $e with hb | hb <;>
+    simp only [hb, Bool.not_true, Bool.not_false, Bool.false_eq_true, if_true, if_false, Bool.true_and, Bool.false_and,
+      Bool.and_true, Bool.and_false, P.ok_bind]))
+
+def svcOk (sv : didtypes.Service) : Bool :=
+  decide ((toService sv).id ≠ []) && decide ((toService sv).type ≠ []) && decide ((toService sv).endpoint ≠ [])
+
+theorem vms_loop (d : didtypes.DIDDocument) (hn : NoNil d) :
+    (forIn d.VerificationMethods ((none : Option Bool), ()) fun verificationMethod __s => do
+        let d_3 ← Go.deref "verificationMethod" verificationMethod
+        let t_5 ← didtypes.VerificationMethod.Valid d_3 d.Id
+        if (!t_5) = true then (P.ok (ForInStep.done (some false, ())) : P _) else P.ok (ForInStep.yield (none, ()))) =
+    P.ok (if (toDoc d).vms.all (fun v => v.valid d.Id) then (none, ()) else (some false, ())) := by
+  rw [forIn_all d.VerificationMethods (optP (fun vm => (toVM vm).valid d.Id))]
+  · rw [all_filterMap_some _ _ hn.1]
+    have : (toDoc d).vms.all (fun v => v.valid d.Id) =
+        (d.VerificationMethods.filterMap id).all (fun vm => (toVM vm).valid d.Id) := by
+      simp only [toDoc, List.all_map]; rfl
+    rw [this]
+  · intro x hx
+    cases x with
+    | none => have := hn.1 none hx; cases this
+    | some vm =>
+      simp only [deref_some, P.ok_bind, vmValid_refines, optP]
+      rcases Bool.eq_false_or_eq_true ((toVM vm).valid d.Id) with h | h <;> simp [h]
+
+theorem services_loop (d : didtypes.DIDDocument) (hn : NoNil d) :
+    (forIn d.Services ((none : Option Bool), ()) fun service __s => do
+        let d_4 ← Go.deref "service" service
+        let t_5 ← didtypes.Service.Valid d_4
+        if (!t_5) = true then (P.ok (ForInStep.done (some false, ())) : P _) else P.ok (ForInStep.yield (none, ()))) =
+    P.ok (if (toDoc d).services.all (fun s => decide (s.id ≠ []) && decide (s.type ≠ []) && decide (s.endpoint ≠ []))
+      then (none, ()) else (some false, ())) := by
+  rw [forIn_all d.Services (optP svcOk)]
+  · rw [all_filterMap_some _ _ hn.2]
+    have : (toDoc d).services.all (fun s => decide (s.id ≠ []) && decide (s.type ≠ []) && decide (s.endpoint ≠ [])) =
+        (d.Services.filterMap id).all svcOk := by
+      simp only [toDoc, List.all_map]; rfl
+    rw [this]
+  · intro x hx
+    cases x with
+    | none => have := hn.2 none hx; cases this
+    | some sv =>
+      have key : didtypes.Service.Valid sv = P.ok (svcOk sv) := rfl
+      simp only [deref_some, P.ok_bind, key, optP]
+      rcases Bool.eq_false_or_eq_true (svcOk sv) with h | h <;> simp [h]
+
+/-- the part of `Valid` after the header checks: verification methods, the five relationship lists, services -/
+macro "doc_tail " d:term ", " hn:term : tactic => `(tactic|
+  (rw [vms_loop $d $hn]
+   simp only [P.ok_bind, validRels_refines $d _ ($hn).1, services_loop $d $hn]
+   bsplit (List.all (Did.Doc.vms (toDoc $d)) (fun v => v.valid (didtypes.DIDDocument.Id $d)))
+   bsplit (Did.validRels (toDoc $d) ((didtypes.DIDDocument.Authentications $d).map toRel))
+   bsplit (Did.validRels (toDoc $d) ((didtypes.DIDDocument.AssertionMethods $d).map toRel))
+   bsplit (Did.validRels (toDoc $d) ((didtypes.DIDDocument.KeyAgreements $d).map toRel))
+   bsplit (Did.validRels (toDoc $d) ((didtypes.DIDDocument.CapabilityInvocations $d).map toRel))
+   bsplit (Did.validRels (toDoc $d) ((didtypes.DIDDocument.CapabilityDelegations $d).map toRel))
+   bsplit (List.all (Did.Doc.services (toDoc $d)) (fun s => decide (s.id ≠ []) && decide (s.type ≠ []) && decide (s.endpoint ≠ [])))))
+
+/-- **`DIDDocument.Valid()` refines `Doc.valid`**, for every document without nil elements in its repeated
+message fields. -/
+theorem docValid_refines (d : didtypes.DIDDocument) (hn : NoNil d) :
+    didtypes.DIDDocument.Valid d = P.ok ((toDoc d).valid) := by
+  unfold didtypes.DIDDocument.Valid Did.Doc.valid Did.Doc.empty
+  simp only [didtypes.DIDDocument.Empty, didtypes.EmptyDID, validateDID_refines, emptyDIDs_refines, validateDIDs_refines,
+    validateContexts_refines, P.ok_bind, P.pure_eq, bind_pure_comp, pure_bind]
+  have hid : (toDoc d).id = d.Id := rfl
+  have hvme : (toDoc d).vms.isEmpty = d.VerificationMethods.isEmpty := by
+    simp only [toDoc, List.isEmpty_map]; exact isEmpty_filterMap_some _ hn.1
+  have haue : (toDoc d).auths.isEmpty = d.Authentications.isEmpty := by simp only [toDoc, List.isEmpty_map]
+  have hctl : (toDoc d).controller = d.Controller := rfl
+  have hctx : (toDoc d).contexts = d.Contexts := rfl
+  have hau : (toDoc d).auths = d.Authentications.map toRel := rfl
+  have has : (toDoc d).asserts = d.AssertionMethods.map toRel := rfl
+  have hka : (toDoc d).keyAgrs = d.KeyAgreements.map toRel := rfl
+  have hci : (toDoc d).capInvs = d.CapabilityInvocations.map toRel := rfl
+  have hcd : (toDoc d).capDels = d.CapabilityDelegations.map toRel := rfl
+  rw [hvme, haue, hctl, hctx, hau, has, hka, hci, hcd]
+  by_cases he : d.Id = []
+  · simp [he, hid]
+  · simp only [hid, he, decide_false, Bool.false_eq_true, if_false]
+    by_cases hh : (!Did.validateDID d.Id || d.VerificationMethods.isEmpty || d.Authentications.isEmpty) = true
+    · simp [hh]
+    · simp only [hh, if_false]
+      cases hC : d.Controller with
+      | none =>
+        simp only [Option.isNone_none, Bool.not_true, Bool.false_eq_true, if_false]
+        cases hX : d.Contexts with
+        | none =>
+          simp only [Option.isNone_none, Bool.not_true, Bool.false_eq_true, if_false]
+          doc_tail d, hn
+        | some cs =>
+          simp only [Option.isNone_some, Bool.not_false, if_true, deref_some, P.ok_bind]
+          bsplit (Did.validateContexts cs)
+          doc_tail d, hn
+      | some c =>
+        simp only [Option.isNone_some, Bool.not_false, if_true, deref_some, P.ok_bind]
+        bsplit (Did.emptyDIDs c)
+        · -- every controller entry is empty: nothing more to check about it
+          cases hX : d.Contexts with
+          | none =>
+            simp only [Option.isNone_none, Bool.not_true, Bool.false_eq_true, if_false]
+            doc_tail d, hn
+          | some cs =>
+            simp only [Option.isNone_some, Bool.not_false, if_true, deref_some, P.ok_bind]
+            bsplit (Did.validateContexts cs)
+            doc_tail d, hn
+        · bsplit (Did.validateDIDs c)
+          cases hX : d.Contexts with
+          | none =>
+            simp only [Option.isNone_none, Bool.not_true, Bool.false_eq_true, if_false]
+            doc_tail d, hn
+          | some cs =>
+            simp only [Option.isNone_some, Bool.not_false, if_true, deref_some, P.ok_bind]
+            bsplit (Did.validateContexts cs)
+            doc_tail d, hn
+
 end Panacea.Refine.DidTypes
